@@ -2,10 +2,13 @@
 for generated programs of the core subset, plus the Lang/Stmt model correspondence."""
 from __future__ import annotations
 
+import ast
 import collections
+from fractions import Fraction
 
 from harness import common as C
 from harness import fw, progen, tracecmp
+from harness import pyast_wire as PW
 from harness import stmt_wire as SW
 
 META_PART = "statement layer: Coq model of declaration/assignment/control-flow translation (Lang/Stmt*.v) with a simulation theorem; tie = IR of the real parser vs model on generated programs; oracle = firmware trace vs CPython trace"
@@ -17,10 +20,17 @@ WITNESSES = {
         "src": progen.HEADER + "for i in range(4):\n    if i == 2:\n        continue\n    mon.write(i)\n", "loops": 0},
     "F-C01-range-bound-reeval": {
         "src": progen.HEADER + "n = 3\nfor i in range(n):\n    n = n - 1\n    mon.write(i)\n", "loops": 0},
+    "F-C01-retype-truncates": {
+        "src": progen.HEADER + "x = 1\nx = 2.5\nmon.write(x)\n", "loops": 0},
 }
 
 
+PINS = {'"A0"': 14, '"A1"': 15, "4": 4}
+
+
 def gen_inputs(rng):
+    if rng.random() < 0.5:      # constant reading per pin: the program is a pure function, the models can run it
+        return "ar 14 %d\nar 15 %d\ndr 4 %d\n" % (rng.choice([0, 5, 300, 1023, 512]), rng.choice([1, 2, 700]), rng.choice([0, 1]))
     return "ar 14 %s\nar 15 %s\ndr 4 %s\n" % (
         " ".join(str(rng.choice([0, 5, 300, 1023, 512])) for _ in range(6)),
         " ".join(str(rng.choice([1, 2, 700])) for _ in range(4)),
@@ -44,7 +54,7 @@ def run_pair(srcs, inputs, loops):
             continue
         r = res[k]
         if y["exc"]:
-            out.append({"status": "py-undefined", "exc": y["exc"]})
+            out.append({"status": "py-undefined", "exc": y["exc"], "py_all": y["events"]})
             continue
         if not r["compiled"]:
             out.append({"status": "nocompile", "log": r["compile_log"][-800:]})
@@ -54,17 +64,178 @@ def run_pair(srcs, inputs, loops):
             continue
         d = tracecmp.compare(r["events"], y["events"])
         out.append({"status": "equal" if d is None else "DIFF", "diff": d,
-                    "fw": tracecmp.fw_events(r["events"])[:60], "py": tracecmp.py_events(y["events"])[:60]})
+                    "fw": tracecmp.fw_events(r["events"])[:60], "py": tracecmp.py_events(y["events"])[:60],
+                    "fw_all": r["events"], "py_all": y["events"]})
     return out
 
 
-def ir_correspondence(ctx, progs):
+EFFECTS = ("S ", "D ", "DW ", "AW ")
+
+
+def const_inputs(inp):
+    """input script -> {pin: value} for the pins whose scripted reading is constant"""
+    out = {}
+    for line in inp.splitlines():
+        w = line.split()
+        if len(w) >= 3 and w[0] in ("ar", "dr") and len(set(w[2:])) == 1:
+            out[(w[0], int(w[1]))] = int(w[2])
+    return out
+
+
+class _Reads(ast.NodeTransformer):
+    """analog_read("A0") / digital_read(4) -> the constant scripted reading"""
+
+    def __init__(self, consts):
+        self.consts, self.ok = consts, True
+
+    def visit_Call(self, n):
+        self.generic_visit(n)
+        if isinstance(n.func, ast.Name) and n.func.id in ("analog_read", "digital_read") and len(n.args) == 1:
+            key = ast.unparse(n.args[0])
+            k = ("ar" if n.func.id == "analog_read" else "dr", PINS.get(key))
+            if k in self.consts:
+                return ast.copy_location(ast.Constant(self.consts[k]), n)
+            self.ok = False
+        return n
+
+
+def exec_exprs(exprs, consts):
+    """expression sources -> (wire expressions for Lang.StmtExec, {id: (kind, pin)} for effect calls) or None"""
+    wires, effects = [], {}
+    for i, src in enumerate(exprs):
+        node = ast.parse(src, mode="eval").body
+        if isinstance(node, ast.Call) and isinstance(node.func, ast.Name) and node.func.id in ("digital_write", "analog_write"):
+            if len(node.args) != 2 or not isinstance(node.args[0], ast.Constant):
+                return None
+            effects[i] = ("DW" if node.func.id == "digital_write" else "AW", node.args[0].value)
+            node = node.args[1]
+        t = _Reads(consts)
+        node = t.visit(node)
+        if not t.ok:
+            return None
+        wires.append(PW.enc_expr(node))
+    return wires, effects
+
+
+def _pyval(w):
+    v = PW.dec_val(w)
+    return float(v) if isinstance(v, Fraction) else v
+
+
+def model_lines(trace, effects):
+    """model trace (wire) -> event lines in the vocabulary of the CPython reference runner"""
+    out = []
+    for e in trace:
+        if e[0] == 0:
+            v = _pyval(e[1])
+            ty = "bool" if isinstance(v, bool) else "int" if isinstance(v, int) else "float" if isinstance(v, float) else "str"
+            out.append(f"S {v}\t{ty}")
+        elif e[0] == 1:
+            out.append(f"D {_pyval(e[1])}")
+        else:
+            kind, pin = effects[e[1]]
+            v = _pyval(e[2])
+            out.append(f"DW {pin} {1 if v else 0}" if kind == "DW" else f"AW {pin} {v}")
+    return out
+
+
+def same_lines(a, b):
+    """model lines vs CPython lines: exact, numbers compared as numbers"""
+    if len(a) != len(b):
+        return False
+    for x, y in zip(a, b):
+        if x == y:
+            continue
+        xs, ys = x.split(" "), y.split(" ")
+        if xs[0] == ys[0] and xs[0] in ("D", "DW", "AW") and len(xs) == len(ys):
+            try:
+                if all(float(p) == float(q) for p, q in zip(xs[1:], ys[1:])):
+                    continue
+            except ValueError:
+                pass
+        if x.startswith("S ") and y.startswith("S ") and x.endswith("\tfloat") and y.endswith("\tfloat"):
+            try:
+                p, q = float(x[2:-6]), float(y[2:-6])
+                if abs(p - q) <= 1e-9 * max(1.0, abs(q)):
+                    continue
+            except ValueError:
+                pass
+        return False
+    return True
+
+
+def exec_correspondence(ctx, exe, items):
+    """items: (src_body, program, annotator, pre, main, impl_result, loops, pair_result).
+    Runs both sides of the statement model (Lang.StmtExec: Python expression semantics shared by
+    both sides) and compares  model Python trace = CPython trace,  model C trace = firmware trace."""
+    st = collections.Counter()
+    jobs = []
+    for it in items:
+        src, p, an, pre, main, r, l, pr = it
+        if pr is None or pr["status"] not in ("equal", "DIFF", "py-undefined"):
+            st["skipped:" + (pr["status"] if pr else "none")] += 1
+            continue
+        ee = exec_exprs(an.exprs, const_inputs(p["input"]))
+        if ee is None:
+            st["skipped:varying-input"] += 1
+            continue
+        wires, effects = ee
+        w = [1, SW.wire_stmts(pre, r["consts"]), [] if main is None else [SW.wire_stmts(main, r["consts"])], wires, l, 600]
+        jobs.append((it, effects, w))
+    outs = C.run_model(exe, [j[2] for j in jobs])
+    inside = 0
+    for (it, effects, _), o in zip(jobs, outs):
+        src, p, an, pre, main, r, l, pr = it
+        case = {"script": src, "input": p["input"], "loops": l}
+        if not isinstance(o, list) or len(o) != 4 or o[0] != 0:
+            ctx.disagree("stmt-exec: model could not decode the program", case, o, None)
+            continue
+        guard, mpy, mc = bool(o[1]), o[2], o[3]
+        inside += guard
+        if pr["status"] == "py-undefined":
+            st["py-undefined"] += 1
+            if mpy[0] == 1:
+                ctx.disagree("stmt-exec: CPython raises, the model's Python semantics completes", case, model_lines(mpy[1], effects)[:40], pr["exc"])
+            continue
+        py = [e for e in pr["py_all"] if e.startswith(EFFECTS)]
+        fwv = [e for e in pr["fw_all"] if e.startswith(EFFECTS)]
+        if mpy[0] != 1:
+            st["model-py-undefined"] += 1
+            ctx.disagree("stmt-exec: the model's Python semantics is undefined on a script CPython runs", case, None, py[:40])
+            continue
+        ml = model_lines(mpy[1], effects)
+        if not same_lines(ml, py):
+            st["py-DIFF"] += 1
+            ctx.disagree("stmt-exec: Python-side trace of the model differs from CPython", case, ml[:60], py[:60])
+            continue
+        st["py-equal"] += 1
+        if mc[0] == 2:
+            ctx.disagree("stmt-exec: model rejects a script the real parser accepts", case, "rejected", "accepted")
+            continue
+        if mc[0] != 1:
+            st["model-c-undefined"] += 1
+            ctx.disagree("stmt-exec: the model's C semantics is stuck on a program the firmware runs", case, None, fwv[:40])
+            continue
+        cl = model_lines(mc[1], effects)
+        d = tracecmp.compare(fwv, cl)
+        if d is not None:
+            st["c-DIFF"] += 1
+            ctx.disagree("stmt-exec: C-side trace of the model (transl + cexec) differs from the firmware trace", case, cl[:60], {"first_difference": d, "firmware": fwv[:60]})
+            continue
+        st["c-equal"] += 1
+        if guard:
+            st["guard:theorem-instance" if same_lines(cl, ml) else "guard:prediction-mismatch"] += 1
+    return {"exec_cases": len(jobs), "exec_status": dict(st), "inside_proved_guard": inside}
+
+
+
+def ir_correspondence(ctx, progs, loops=None, res=None):
     """Lang.Transl.transl (extracted) vs the IR of the real parse() on the same programs."""
     exe = ctx.exes.get("C01_stmt")
     if exe is None:
         return {"ir_cases": 0}
-    cases = []
-    for p in progs:
+    cases, extra = [], []
+    for k, p in enumerate(progs):
         if p.get("funcs"):
             continue                      # helper functions are outside the statement model
         an = SW.Annotator()
@@ -72,6 +243,7 @@ def ir_correspondence(ctx, progs):
         main = an.stmts(p["main"]) if p["main"] is not None else None
         if an.ok:
             cases.append((p, an, pre, main))
+            extra.append((loops[k] if loops else 0, res[k] if res else None))
     if not cases:
         return {"ir_cases": 0}
     impl = C.run_impl("c01_stmt_impl.py", {"cases": [{"src": progen.render(p), "exprs": an.exprs} for p, an, _, _ in cases]})
@@ -108,7 +280,12 @@ def ir_correspondence(ctx, progs):
                          {"globals": ig, "first_differing_node": first and first[1]})
         else:
             st["equal"] += 1
-    return {"ir_cases": len(cases), "ir_status": dict(st)}
+    out = {"ir_cases": len(cases), "ir_status": dict(st)}
+    if res is not None:
+        items = [(progen.render(p)[len(progen.HEADER):], p, an, pre, main, r, l, pr)
+                 for (p, an, pre, main), r, (l, pr) in zip(cases, impl["results"], extra)]
+        out.update(exec_correspondence(ctx, exe, items))
+    return out
 
 
 def run_unit(ctx: C.Ctx):
@@ -147,9 +324,9 @@ def run_unit(ctx: C.Ctx):
         for i, r in zip(ids, wres):
             if r["status"] in ("DIFF", "nocompile"):
                 ctx.known(f"{i}: {listed[i]['what']}")
-    ir = ir_correspondence(ctx, progs)
+    ir = ir_correspondence(ctx, progs, loops, res)
     return {
-        "evaluations": n + ir["ir_cases"], "programs_by_status": dict(stats), "ir_correspondence": ir,
+        "evaluations": n + ir["ir_cases"] + ir.get("exec_cases", 0), "programs_by_status": dict(stats), "ir_correspondence": ir,
         "distinct_nontrivial": len({s for s, r in zip(srcs, res) if r["status"] == "equal" and len(r["py"]) >= 3}),
         "samples": [srcs[0][len(progen.HEADER):], srcs[-1][len(progen.HEADER):]],
         "rule": "seeded programs from harness/progen.py over 6 feature sets (core ints; +floats; +helper functions; +tuple/swap; all; first assignment inside branches), N in 0..3 loop passes, scripted analog/digital inputs; non-trivial = both sides ran and the common trace has >= 3 events",
